@@ -254,8 +254,11 @@ func NewPri() *Pri {
 		}
 	}
 	c, _ := cpu65c816.New(b)
+	// the InitFrom object is derived from a CPU written as a struct literal (never passed through New/Init):
+	// all three ways of making a CPU that work on the library are in use
+	lit := &cpu65c816.CPU{Bus: b}
 	c2 := &cpu65c816.CPU{}
-	c2.InitFrom(c, b)
+	c2.InitFrom(lit, b)
 	return &Pri{B: b, C: c, cInit: c, cFrom: c2, M: m}
 }
 func (p *Pri) Name() string { return "cpu65c816" }
